@@ -1388,6 +1388,7 @@ def chk_pickle():
     quantities = {
         "lambda": lambda d: d["x"],
         "lambda-default": (lambda d, k="x": d[k]),
+        "lambda-nan-default": (lambda d, missing=float("nan"): d.get("x", missing) if isinstance(d, dict) else d["x"]),
         "def": q_def,
         "def-user-global": _q_user_global,
         "string": "x",
@@ -1518,10 +1519,14 @@ def chk_numpy(K, skip=(), only_kids=None, exclude_kids=()):
     def wtr(w):
         return 2 * w
 
+    def wsq(w):
+        return w * w  # a non-linear weight transform (sum of squared weights)
+
     kids = {
         "Count": lambda: hg.Count(),
         "CountT": lambda: hg.Count(wtr),
         "CountTC": lambda: hg.Count(hg.util.cached(wtr)),
+        "CountSq": lambda: hg.Count(wsq),
         "Sum": lambda: hg.Sum(qyn),
         "Average": lambda: hg.Average(qyn),
         "Deviate": lambda: hg.Deviate(qyn),
@@ -1564,9 +1569,9 @@ def chk_numpy(K, skip=(), only_kids=None, exclude_kids=()):
     weights_variants = ["one", "scalar", "array", "array-mean-one"]
     if K == "Count":
         return None  # a bare Count has no quantity: outside the property (no fill.numpy entry point)
-    child_kinds_ = ["Count"] if K in LEAVES else ["Count", "CountT", "CountTC", "Sum", "Average", "Deviate", "Minimize", "Bin2"]
+    child_kinds_ = ["Count"] if K in LEAVES else ["Count", "CountT", "CountTC", "CountSq", "Sum", "Average", "Deviate", "Minimize", "Bin2"]
     if K in ("Label", "Index"):
-        child_kinds_ = child_kinds_[3:]  # all-Count collections have no quantity-bearing node
+        child_kinds_ = child_kinds_[4:]  # all-Count collections have no quantity-bearing node
     if only_kids is not None:
         child_kinds_ = [c for c in child_kinds_ if c in only_kids]
     child_kinds_ = [c for c in child_kinds_ if c not in exclude_kids]
@@ -1978,4 +1983,171 @@ def chk_json_duplicate_edges():
             return f"{name}: original + reload raised {e!r}"
         if not approx_eq(both.toJson(), (h * 2.0).toJson()):
             return f"{name}: original + reload differs from original * 2"
+    return None
+
+
+def chk_json_string_and_file():
+    """C04 "directly, via string, or via file": toJsonString / toJsonFile write strict JSON and Factory.fromJson(str),
+    fromJsonString, fromJsonFile give back a container that serialises to the identical document (json.dump / json.load
+    and the file system are external: this is a run-time check of the three thin wrappers)"""
+    import os
+    import tempfile
+
+    def strict(text):
+        def bad(c):
+            raise ValueError(f"non-strict JSON constant {c}")
+
+        return json.loads(text, parse_constant=bad)
+
+    data = [datum(0.5, c="a"), datum(NAN, c="b"), datum(INF, c="a"), datum(-INF, c=None), datum(2.5, c="b")]
+    with tempfile.TemporaryDirectory(prefix="hgv_json_") as tmp:
+        for K in CLASSES:
+            for ck in child_kinds(K)[:3]:
+                for n in (0, len(data)):
+                    h = fill_all(make(K, ck), data[:n])
+                    doc = h.toJson()
+                    try:
+                        text = h.toJsonString()
+                        if strict(text) != strict(json.dumps(doc, allow_nan=False)):
+                            return f"{K}[{ck}]: toJsonString differs from the document of toJson"
+                        path = os.path.join(tmp, "h.json")
+                        h.toJsonFile(path)
+                        with open(path) as f:
+                            strict(f.read())
+                        via = {
+                            "fromJson(str)": hg.Factory.fromJson(text),
+                            "fromJsonString": hg.Factory.fromJsonString(text),
+                            "fromJsonFile": hg.Factory.fromJsonFile(path),
+                        }
+                    except Exception as e:
+                        return f"{K}[{ck}] filled with {n} data: the string / file route raised {e!r}"
+                    # the reference is the direct reload of the same document (that *it* re-serialises identically is the
+                    # proved round-trip clause, with its known finding for empty sparse containers of named templates)
+                    ref = hg.Factory.fromJson(doc).toJson()
+                    for how, r in via.items():
+                        if r.toJson() != ref:
+                            return f"{K}[{ck}] filled with {n} data: the reload via {how} differs from the direct reload of the document"
+                    if js(h) != json.dumps(doc, sort_keys=True):
+                        return f"{K}[{ck}]: writing the string / file changed the aggregator"
+    return None
+
+
+def chk_numpy_count_after_quantity():
+    """fill.numpy equals row-wise fill for Counts (plain, with a linear and with a non-linear weight transform) that come
+    *after* a quantity-bearing sibling in a root collection: the sibling fixes the batch length, the Count then gets the scalar
+    weight and the length (the path the count-first known findings do not reach)"""
+    import numpy as np
+
+    def qx_(d):
+        return d["x"]
+
+    def wtr(w):
+        return 0.5 * w
+
+    def wsq(w):
+        return w * w
+
+    xs = np.array([0.5, 1.5, NAN, 2.5, -1.0, 0.25, 3.0, 0.75])
+    trees = {
+        "Branch(Sum, Count, Count(0.5 w), Count(w^2))": lambda: hg.Branch(hg.Sum(qx_), hg.Count(), hg.Count(wtr), hg.Count(wsq)),
+        "UntypedLabel(a=Sum, b=Count(w^2))": lambda: hg.UntypedLabel(a=hg.Sum(qx_), b=hg.Count(wsq)),
+        "Branch(Bin(Count(w^2)), Count(w^2))": lambda: hg.Branch(hg.Bin(2, 0.0, 2.0, qx_, hg.Count(wsq)), hg.Count(wsq)),
+    }
+    for name, mk in trees.items():
+        for wname, w in (("1", None), ("scalar 2.5", 2.5), ("scalar 0", 0.0), ("array", np.array([1.0, 0.0, 2.0, 0.5, 3.0, 1.0, 0.25, 2.0]))):
+            for split in (None, 3):
+                a, b = mk(), mk()
+                for i, x in enumerate(xs):
+                    wi = 1.0 if w is None else (float(w[i]) if isinstance(w, np.ndarray) else w)
+                    a.fill({"x": float(x)}, wi)
+                parts = [(0, len(xs))] if split is None else [(0, split), (split, len(xs))]
+                for lo, hi in parts:
+                    data = {"x": xs[lo:hi]}
+                    if w is None:
+                        b.fill.numpy(data)
+                    else:
+                        b.fill.numpy(data, w[lo:hi] if isinstance(w, np.ndarray) else w)
+                if not approx_eq(a.toJson(), b.toJson(), 1e-12):
+                    return f"{name}, weights {wname}, {'whole batch' if split is None else 'two batches'}: fill gives {js(a)}, fill.numpy gives {js(b)}"
+    return None
+
+
+def chk_stack_build_merge():
+    """C01 on Stacks made by Stack.build (all thresholds NaN; outside the wf of the proved Stack contracts): independently
+    built partial results merge in any order and grouping, and zero() is a two-sided identity - also for a reload"""
+    data = [datum(0.5), datum(1.5), datum(2.5), datum(NAN), datum(0.25), datum(2.75)]
+
+    def built(rows):
+        parts = [fill_all(hg.Bin(3, 0.0, 3.0, qx), rows[:n]) for n in (1, 2, len(rows))]
+        return hg.Stack.build(*parts)
+
+    a, b, c = built(data[:2]), built(data[2:4]), built(data[4:])
+    try:
+        groupings = {
+            "(a + b) + c": (a + b) + c,
+            "a + (b + c)": a + (b + c),
+            "c + (a + b)": c + (a + b),
+            "(b + a) + c": (b + a) + c,
+        }
+        ra = hg.Factory.fromJson(a.toJson())
+        ident = {"a + a.zero()": a + a.zero(), "a.zero() + a": a.zero() + a, "reload + reload.zero()": ra + ra.zero(), "reload.zero() + a": ra.zero() + a}
+    except Exception as e:
+        return f"Stack.build: merging independently built Stacks raised {e!r}"
+    ref = js(groupings["(a + b) + c"])
+    for name, r in groupings.items():
+        if not approx_eq(json.loads(js(r)), json.loads(ref)):
+            return f"Stack.build: {name} differs from (a + b) + c"
+    for name, r in ident.items():
+        if not approx_eq(r.toJson(), a.toJson()):
+            return f"Stack.build: {name} differs from a"
+    return None
+
+
+def chk_numpy_dtypes():
+    """C04 / C03 after vectorised fills from arrays that are not float64 (int64, int32, float32, bool): the state still
+    serialises with json.dumps(allow_nan=False) (no numpy scalar left in a field), and equals the row-wise fill of the same
+    values.  Two successive batches, the second one raising the maximum / lowering the minimum."""
+    import numpy as np
+
+    def qx_(d):
+        return d["x"]
+
+    batches = {
+        "int64": [np.array([1, 2, 0], dtype=np.int64), np.array([5, -3, 2], dtype=np.int64)],
+        "int32": [np.array([1, 2, 0], dtype=np.int32), np.array([5, -3, 2], dtype=np.int32)],
+        "float32": [np.array([0.5, 1.5, 0.25], dtype=np.float32), np.array([2.5, -1.5, 0.75], dtype=np.float32)],
+        "bool": [np.array([True, False, True]), np.array([False, True, True])],
+    }
+    trees = {
+        "Sum": lambda: hg.Sum(qx_),
+        "Average": lambda: hg.Average(qx_),
+        "Deviate": lambda: hg.Deviate(qx_),
+        "Minimize": lambda: hg.Minimize(qx_),
+        "Maximize": lambda: hg.Maximize(qx_),
+        "Bag": lambda: hg.Bag(qx_, "N"),
+        "Bin": lambda: hg.Bin(4, -4.0, 6.0, qx_, hg.Maximize(qx_)),
+        "SparselyBin": lambda: hg.SparselyBin(1.0, qx_, hg.Minimize(qx_)),
+        "CentrallyBin": lambda: hg.CentrallyBin([-2.0, 0.0, 3.0], qx_, hg.Sum(qx_)),
+        "IrregularlyBin": lambda: hg.IrregularlyBin([0.0, 2.0], qx_, hg.Maximize(qx_)),
+        "Stack": lambda: hg.Stack([0.0, 2.0], qx_, hg.Minimize(qx_)),
+        "Select": lambda: hg.Select(qx_, hg.Maximize(qx_)),
+        "Fraction": lambda: hg.Fraction(qx_, hg.Sum(qx_)),
+        "Branch": lambda: hg.Branch(hg.Sum(qx_), hg.Maximize(qx_), hg.Minimize(qx_)),
+    }
+    for dt, (b1, b2) in batches.items():
+        for name, mk in trees.items():
+            a, b = mk(), mk()
+            try:
+                for arr in (b1, b2):
+                    b.fill.numpy({"x": arr})
+                    for v in arr.tolist():
+                        a.fill({"x": v})
+            except Exception as e:
+                return f"{name} filled from {dt} arrays: raised {e!r}"
+            try:
+                text = json.dumps(b.toJson(), allow_nan=False)
+            except Exception as e:
+                return f"{name} filled by fill.numpy from {dt} arrays: json.dumps of toJson() raised {e!r}"
+            if not approx_eq(json.loads(text), json.loads(json.dumps(a.toJson(), allow_nan=False)), 1e-6):
+                return f"{name} filled from {dt} arrays: fill.numpy gives {text[:300]}, row-wise fill gives {json.dumps(a.toJson())[:300]}"
     return None
